@@ -314,7 +314,7 @@ def check(ax, case, rec):
     raise KeyError(ax)
 
 
-FAMILIES = [Family("balance", AXIS, check, strategy=strategy, n={"quick": 10, "thorough": 300}, chunk=10, weight=2)]
+FAMILIES = [Family("balance", AXIS, check, strategy=strategy, n={"quick": 10, "thorough": 1000}, chunk=10, weight=2)]
 
 LEVEL_TEXT = (
     "All balance clauses x field kinds enumerated; Hypothesis draws meshes, deformed states, objective materials and "
